@@ -1,6 +1,7 @@
 import KyberModel.Drive.Grp
 import KyberModel.Lib.Bytes
 import KyberModel.Lib.Ed25519
+import KyberModel.Lib.DecodeValid
 /-
 C03 — encodings are fixed-length, canonical and round-trip (model side).
 `enc` of each reference model has the advertised length, is injective on valid (reduced, on-curve)
@@ -206,5 +207,10 @@ theorem ed25519_enc_injective (P Q : Edwards.Pt) (hP : Ed25519.Valid P) (hQ : Ed
       · subst hk0; omega
       · subst hk1; omega
   cases P; cases Q; simp_all
+
+/-- Ed25519: decoding the encoding of ANY valid point returns that point (the square-root routine of the
+    decoder finds the root whenever one exists; `Lib/DecodeValid.lean`). -/
+theorem ed25519_roundtrip (P : Edwards.Pt) (hP : Ed25519.Valid P) : Ed25519.dec (Ed25519.enc P) = some P :=
+  Ed25519.dec_enc_of_valid P hP
 
 end Kyber.C03
